@@ -157,6 +157,7 @@ struct inst {
   long n;         /* caller buffer length */
   char place;     /* L R H */
   uint8_t fill;
+  long last_before; /* offset at which the last assemble call started */
   long hiwater;   /* library-managed buffer: the highest offset a successful
                      call has returned - the harness reads nothing beyond it */
 };
@@ -575,6 +576,14 @@ int main(int argc, char **argv) {
     } else if (!strcmp(c, "setoff")) {
       asm_set_offset(x->al, atoi(tok[2]));
       oputs("O\n");
+    } else if (!strcmp(c, "setoffcur")) {
+      /* asm_set_offset to what asm_get_offset reports right now (also -1 after a failed call) */
+      asm_set_offset(x->al, asm_get_offset(x->al));
+      oputs("O\n");
+    } else if (!strcmp(c, "setoffprev")) {
+      /* asm_set_offset to where the last assemble call on this instance started (what a caller does to retry / overwrite) */
+      asm_set_offset(x->al, (int)x->last_before);
+      oputs("O\n");
     } else if (!strcmp(c, "getoff")) {
       oprintf("G %d\n", asm_get_offset(x->al));
     } else if (!strcmp(c, "asm") || !strcmp(c, "cnt") || !strcmp(c, "file") ||
@@ -602,6 +611,7 @@ int main(int argc, char **argv) {
         continue;
       }
       int before = asm_get_offset(x->al);
+      x->last_before = before;
       /* snapshot [0,before) of a caller buffer */
       long snap = 0;
       if (x->ext && before > 0 && before <= x->n) {
